@@ -140,17 +140,27 @@ func decodeEncode(s string, tr *url.PercentEncodeSet) string {
 	return r
 }
 
-// repeatedDecode repeatedly percent-unescape a string until it has no more percent-escapes
+// repeatedDecode repeatedly percent-unescape a string until it has no more percent-escapes.
+//
+// Unescaping one escape never touches another one, so the result does not depend on the order in
+// which escapes are decoded. Decoding every escape as soon as it is complete at the end of the
+// output (a decoded byte may complete an escape with what was written before it) therefore gives
+// the same string as unescaping the whole string over and over, in one pass instead of one pass
+// per nesting level (which is quadratic for %2525...2541).
 func repeatedDecode(s string) string {
-	var r string
-	for {
-		r = decodePercentEncoded(s)
-		if s == r {
-			break
-		}
-		s = r
+	if !strings.Contains(s, "%") {
+		return s
 	}
-	return s
+	out := make([]byte, 0, len(s))
+	for i := 0; i < len(s); i++ {
+		out = append(out, s[i])
+		for n := len(out); n >= 3 && out[n-3] == '%' &&
+			url.ASCIIHexDigit.Test(uint(out[n-2])) && url.ASCIIHexDigit.Test(uint(out[n-1])); n = len(out) {
+			out[n-3] = unhex(out[n-2])<<4 | unhex(out[n-1])
+			out = out[:n-2]
+		}
+	}
+	return string(out)
 }
 
 func percentEncode(s string, tr *url.PercentEncodeSet) string {
@@ -171,24 +181,6 @@ func percentEncodeByte(b byte, tr *url.PercentEncodeSet) string {
 	percentEncoded[1] = "0123456789ABCDEF"[b>>4]
 	percentEncoded[2] = "0123456789ABCDEF"[b&15]
 	return string(percentEncoded)
-}
-
-func decodePercentEncoded(s string) string {
-	sb := strings.Builder{}
-	bytes := []byte(s)
-	for i := 0; i < len(bytes); i++ {
-		if bytes[i] != '%' {
-			sb.WriteByte(bytes[i])
-		} else if len(bytes) < (i+3) ||
-			(!url.ASCIIHexDigit.Test(uint(bytes[i+1])) || !url.ASCIIHexDigit.Test(uint(bytes[i+2]))) {
-			sb.WriteByte(bytes[i])
-		} else {
-			b := unhex(bytes[i+1])<<4 | unhex(bytes[i+2])
-			sb.WriteByte(b)
-			i += 2
-		}
-	}
-	return sb.String()
 }
 
 func unhex(c byte) byte {
